@@ -259,6 +259,13 @@ pub fn build_inputs(a: &Args, rng: &mut Rng) -> Vec<RunInput> {
             v.push(RunInput { text, front: fr, wrap, cfg, dialect: rng.below(4), src: "doc" });
         }
     }
+    // token soups: lexically special atoms strung together (every pass meets every other pass's output)
+    for i in 0..a.num("soups", 1500) as usize {
+        let t = inputs::token_soup(rng);
+        let fr = if i % 3 == 0 { rng.pick(&fronts[..]).clone() } else { ["plain", "markdown"][i % 2].to_string() };
+        let text = if fr == "plain" || fr == "markdown" { t } else { inputs::wrap_front(&fr, &t, rng) };
+        v.push(RunInput { text, front: fr, wrap: if i % 9 == 0 { 3 } else { 0 }, cfg: "all".into(), dialect: i % 4, src: "soup" });
+    }
     for adv in inputs::adversarial() {
         for fr in &fronts {
             v.push(RunInput { text: adv.clone(), front: fr.clone(), wrap: 0, cfg: "all".into(), dialect: 0, src: "adversarial" });
